@@ -3,6 +3,8 @@ import json
 import os
 import re
 
+import itertools
+
 import common
 import pdfparse
 from static_checks import can_need_filing
@@ -20,6 +22,50 @@ def domain_of(field):
     if t == "StringField":
         return ["", "x"]
     return None
+
+
+_PCAT = {}
+
+
+def free_inputs(year, line_obj):
+    """names of the yes/no and choice inputs a line reads, if it is computed from inputs alone (forced execution); else None"""
+    import pathexplore
+    if year not in _PCAT:
+        _PCAT[year] = pathexplore.Catalogue(year)
+        pathexplore._patch_threshold()
+        pathexplore._patch_float(year)
+    cat = _PCAT[year]
+    try:
+        form = cat.form(line_obj.form().name())
+        field = next(x for x in form.fields() if x.base_name() == line_obj.base_name())
+        rec = pathexplore.explore_line(cat, form, field, max_paths=200)
+    except Exception:      # noqa
+        return None
+    if any(k != "in" for (k, _n) in rec["refs"]):
+        return None
+    out = set()
+    for (_k, n) in rec["refs"]:
+        for dec, _o in rec["gate_obs"]:
+            if n in dec:
+                out.add(n)
+                break
+    return out
+
+
+def line_texts(year, line_obj):
+    """text values a line can yield (forced execution; an SSN input answers 123456789, free text answers abc or nothing)"""
+    import pathexplore
+    if year not in _PCAT:
+        _PCAT[year] = pathexplore.Catalogue(year)
+        pathexplore._patch_threshold()
+        pathexplore._patch_float(year)
+    cat = _PCAT[year]
+    try:
+        form = cat.form(line_obj.form().name())
+        field = next(x for x in form.fields() if x.base_name() == line_obj.base_name())
+        return pathexplore.explore_line(cat, form, field, max_paths=60)["texts"]
+    except Exception:      # noqa
+        return []
 
 
 def facts():
@@ -65,22 +111,38 @@ def facts():
                 rec = {"mid": len(maps) + 1, "year": year, "form": cls.form_name, "target": pf.pdf_field_name, "line": ln, "line_exists": line_obj is not None,
                        "kind": kind, "maxlen": getattr(pf, "max_length", None) if getattr(pf, "max_length", None) is not None else -1,
                        "truev": str(getattr(pf, "_true_value", "")), "choices": [str(c) for c in getattr(pf, "_choices", [])],
-                       "t_exists": False, "t_kind": "", "t_max": -1, "t_on": [], "t_opts": [], "label": "", "lineno": "", "excused": False, "probes": []}
+                       "t_exists": False, "t_kind": "", "t_max": -1, "t_on": [], "t_opts": [], "label": "", "lineno": "", "excused": False, "probes": [],
+                       "t_format": "", "texts": []}
                 if tree is not None and pf.pdf_field_name in tree:
                     t = tree[pf.pdf_field_name]
                     rec.update({"t_exists": True, "t_kind": t["kind"], "t_max": t["maxchars"] if t["maxchars"] is not None else -1,
                                 "t_on": [t["on"]] if t["on"] is not None else [], "t_opts": t["items"] if t["kind"] == "choice" else [],
                                 "label": pdfparse.label_line(t["speak"]) or "", "lineno": pdfparse.mapped_line_number(lbase) or ""})
                     gkey = (t["parent"], t["base"]) if t["kind"] == "button" else None
+                    sp = (t["speak"] or "").lower()
+                    if kind == "text" and line_obj is not None and getattr(pf, "_value_fn", None) is None and \
+                            re.search(r"social security (number|no\.)|\bssn\b", sp) and not re.search(r"name|address|occupation|relationship", sp):
+                        rec["t_format"] = "ssn"
+                        rec["texts"] = [[ord(c) for c in x] for x in line_texts(year, line_obj) if x.strip()]
                 elif acro is not None and pf.pdf_field_name in acro:
                     t = acro[pf.pdf_field_name]
                     rec.update({"t_exists": True, "t_kind": t["kind"], "t_max": t["maxlen"] if t["maxlen"] is not None else -1, "t_on": t["on"], "t_opts": t["opts"]})
+                    if t.get("format") == "ssn" and kind == "text" and line_obj is not None and getattr(pf, "_value_fn", None) is None:
+                        # the template formats this box as a social security number: what can the driving line put there?
+                        rec["t_format"] = "ssn"
+                        rec["texts"] = [[ord(c) for c in x] for x in line_texts(year, line_obj) if x.strip()]
                     mm = re.search(r"_li(\d{1,2}[a-z]?)(?:_|$)", pf.pdf_field_name)      # NC field names carry the line number: y_d400wf_li12a_pg1_good
                     if mm:
                         rec["label"] = mm.group(1).lower()
                         rec["lineno"] = pdfparse.mapped_line_number(lbase) or ""
                     m = re.match(r"^(.*?)(yes|no)$", pf.pdf_field_name, re.I)
                     gkey = ("nc", m.group(1)) if (t["kind"] == "button" and m) else None
+                    if gkey is not None:
+                        # the yes and the no box of one question usually share their name up to yes/no (rs1yes / rs1no); where
+                        # the other box of that name does not exist, the digit numbers the BOX (v1yes / v2no)
+                        other = m.group(1) + ("no" if m.group(2).lower() == "yes" else "yes")
+                        if other not in acro:
+                            gkey = ("nc", re.sub(r"\d$", "", m.group(1)) + "#")
                     if t["kind"] == "button" and re.match(r"^y_d400wf_fstat\d$", pf.pdf_field_name):
                         gkey = ("nc", "y_d400wf_fstat")
                 else:
@@ -112,8 +174,38 @@ def facts():
                 if len(members) < 2:
                     continue
                 lines = sorted(set(ln for (_pf, ln, _lo) in members))
-                if len(lines) != 1 or members[0][2] is None:
-                    continue           # boxes driven by different lines are not an exclusive group of one question
+                if any(lo is None for (_pf, _ln, lo) in members):
+                    continue
+                if len(lines) != 1:
+                    # the boxes of one question driven by DIFFERENT lines: they can be on together if those lines can take
+                    # the offending values together.  Decided only where that is certain: every driving line is computed
+                    # from inputs alone and has a yes/no or choice input of its own that the others do not read.
+                    if gkey[0] != "nc":
+                        continue
+                    by_line = {}
+                    for (_pf, ln, lo) in members:
+                        by_line[ln] = lo
+                    reads = {ln: free_inputs(year, lo) for ln, lo in by_line.items()}
+                    if any(r is None for r in reads.values()) or \
+                            any(not (reads[a] - set().union(*[reads[b] for b in reads if b != a])) for a in reads):
+                        continue
+                    doms = {ln: domain_of(lo) for ln, lo in by_line.items()}
+                    if any(d is None for d in doms.values()):
+                        continue
+                    rows = []
+                    names = sorted(by_line)
+                    for combo in itertools.product(*[doms[n] for n in names]):
+                        val = dict(zip(names, combo))
+                        on = []
+                        for (pf, ln, lo) in members:
+                            try:
+                                if pf.value(val[ln], lo) != "Off":
+                                    on.append(pf.pdf_field_name)
+                            except Exception as e:     # noqa
+                                on.append("ERROR:" + type(e).__name__)
+                        rows.append({"value": ", ".join("%s=%s" % (n, val[n]) for n in names), "on": on})
+                    groups.append({"year": year, "form": cls.form_name, "group": "%s/%s" % gkey, "line": ",".join(names), "rows": rows})
+                    continue
                 dom = domain_of(members[0][2])
                 if dom is None:
                     continue
